@@ -874,7 +874,7 @@ func main() {
 				if thorough {
 					n = 6
 				}
-				if hf == "mod3" {
+				if hf == "mod3" || (thorough && hf == "id") {
 					n--
 				}
 				exhaustive(c, 0, n)
@@ -901,7 +901,7 @@ func main() {
 		r := rng.FromEnv(2)
 		cases := 260
 		if thorough {
-			cases = 2500
+			cases = 1400
 		}
 		for i := 0; i < cases; i++ {
 			kind := ks[i%len(ks)]
@@ -922,9 +922,14 @@ func main() {
 			if kind == "chain" && r.Chance(1, 2) {
 				uni *= 4 // chaining grows at 10 keys per bucket
 			}
-			if degenerate(c.hf) && !thorough { // long probe chains: keep the quick tier quick
-				uni = min(uni, 40)
-				steps = min(steps, 800)
+			if degenerate(c.hf) { // long probe chains on the model side: keep the tiers within budget
+				if thorough {
+					uni = min(uni, 120)
+					steps = min(steps, 2500)
+				} else {
+					uni = min(uni, 40)
+					steps = min(steps, 800)
+				}
 			}
 			random(r, c, steps, uni)
 		}
